@@ -36,7 +36,7 @@ def units(world):
             requires=[H("nonempty-children", "not empty(children)")] if with_children else [],
             modifies=["self.node_id", "self.node_type", "self.protocol_version", "self.children", "self.sketch_name", "self.sketch_version",
                       "self.battery_level", "self.heartbeat", "self.reboot", "self.sleeping"],
-            ensures=[P("C04+C13/node-attributes-are-the-arguments",
+            ensures=[P("C04+C07+C13/node-attributes-are-the-arguments",
                        "self.node_id == node_id and self.node_type == node_type and self.protocol_version == protocol_version and "
                        "self.sketch_name == sketch_name and self.sketch_version == sketch_version and self.battery_level == battery_level and "
                        f"self.heartbeat == heartbeat and self.sleeping == sleeping and not self.reboot and {kept}")],
